@@ -43,7 +43,8 @@ class C05(InterpProp):
     def classify(self, case, obs):
         """known: inside the body of a re-arming Alarm, generators of the previous invocation (a nested Watch / Alarm whose
         interrupt survives the re-arm, or the duplicate run of a nested Alarm) start lines after a block while the block of
-        the new invocation is running -- every offending block must lie inside an Alarm body and nothing else may be wrong"""
+        the new invocation is running, or the re-arm resets a block that holds the lock while the Block tag goes on naming
+        it -- every offending block must lie inside an Alarm body and nothing else may be wrong"""
         tab = obs["table"]
 
         def anc(n):
@@ -61,7 +62,11 @@ class C05(InterpProp):
                 return None
             active = [x for x in locked if not nd[x][6]]
             if v["block"] != (active[-1] if active else None):
-                return None
+                # explained only if the tag names a block inside an Alarm body that the Alarm's re-arm has reset
+                named = v["block"]
+                if named is None or named < 0 or nd[named][5] or not any(tab[a]["kind"][0] == "KAlarm" for a in anc(named)):
+                    return None
+                seen = True
             for i in v["interrupts"]:
                 if any(tab[a]["kind"][0] == "KBlock" and nd[a][6] for a in anc(i)):
                     return None
